@@ -297,6 +297,10 @@ package server
 //@   assert-at call JoinPath #1 : arg0.Scheme == opts.mp.ProtocolScheme && arg0.Host == opts.mp.Registry && len(arg1) == 4 && arg1[0] == "v2" && arg1[1] == ghost_nr && arg1[2] == "blobs" && arg1[3] == opts.digest
 //@   assert-at call Prepare #1 : arg1 == ctx && arg2 == requestURL && arg3 == opts.regOpts
 //@   assert-at call Wait #1 : arg1 == ctx
+// (round 5, C03-seed4) registered and unregistered under the digest as spelled in the manifest - the key
+// blobDownload.run deletes when it ends (b.Digest): see the clause on run.
+//@   assert-at call LoadOrStore #1 : tagis(arg1, "string") && unbox(arg1, "string") == opts.digest && tagis(arg2, "*blobDownload") && unbox(arg2, "*blobDownload").Digest == opts.digest
+//@   assert-at call Delete #1 : tagis(arg1, "string") && unbox(arg1, "string") == opts.digest
 
 //@ extern func context.WithCancel
 //@   modifies nothing
@@ -646,6 +650,10 @@ package server
 //@   ghost-at entry : ghost_ren := 0
 //@   ghost-at after call os.Rename #1 : ghost_ren := ite(result == nil, 1, 0)
 //@   ensures result == nil ==> ghost_ren == 1
+// (round 5, C03-seed4) the entry run removes is the one downloadBlob registered: both use the digest as
+// spelled in the manifest (b.Digest == opts.digest) as the key - a different key on either side leaves a
+// finished download in the manager for ever and every retry joins the dead attempt.
+//@   assert-at call Delete : tagis(arg1, "string") && unbox(arg1, "string") == b.Digest
 
 // (round 4) "the stored manifest is the one the registry served": pullModelManifest returns a manifest
 // only after makeRequestWithRetry returned a response without error (status < 400 by its contract) and
